@@ -95,7 +95,26 @@ static inline str_t *str_t__op_addassign_cstr(str_t *s, const char *lit)
   __CPROVER_assert(lit[4] == 0, "model limit: literal longer than 4 characters");
   return s;
 }
+#ifdef VEC_U8_NOCONTENT
+/* Content-free octet vector (memory-safety groups): sizes are exact, CONTENTS ARE ARBITRARY AT EVERY READ -- an
+ * over-approximation of every possible content, sound for safety obligations and free of large arrays, so that
+ * sizes range over all of size_t.  Writes are dropped.  (Two reads of one position may disagree: a failure that
+ * depends on that is a false alarm and is examined by hand, never reported as is.) */
+typedef struct { unsigned char *data; size_t size; size_t cap; } vec_u8;
+unsigned char vec_u8__cell;   /* scratch cell every read goes through: list it in assigns clauses */
+unsigned char nondet_uchar(void);
+static inline size_t vec_u8__size(vec_u8 *v) { return v->size; }
+static inline _Bool vec_u8__empty(vec_u8 *v) { return v->size == 0; }
+static inline void vec_u8__clear(vec_u8 *v) { v->size = 0; }
+static inline void vec_u8__push_back(vec_u8 *v, unsigned char x)
+{ (void)x; __CPROVER_assert(v->size < v->cap, "model limit: vector capacity"); v->size = v->size + 1; }
+static inline unsigned char *vec_u8__op_index(vec_u8 *v, size_t i)
+{ __CPROVER_assert(i < v->size, "vector index in range"); vec_u8__cell = nondet_uchar(); return &vec_u8__cell; }
+static inline void vec_u8__ctor_0(vec_u8 *v)
+{ v->data = (unsigned char *)__verif_new_array(1, VEC_LOCAL_CAP); v->size = 0; v->cap = VEC_LOCAL_CAP; }
+#else
 VEC_DECL(vec_u8, unsigned char)
+#endif
 /* iterators of an octet vector: (container, position).  Range operations ASSERT what the standard library
  * requires and does not check: both iterators belong to one container, first <= last <= end. */
 typedef struct { vec_u8 *v; size_t i; } vec_u8_iter;
@@ -111,14 +130,27 @@ static inline void vec_u8__insert(vec_u8 *dst, vec_u8_iter pos, vec_u8_iter firs
   __CPROVER_assert(pos.v == dst && pos.i == dst->size, "model limit: insert is modelled at end() only");
   size_t cnt = last.i - first.i;
   __CPROVER_assert(cnt <= dst->cap - dst->size, "model limit: vector capacity");
+#if defined(VEC_U8_NOCONTENT)
+  dst->size = dst->size + cnt;
+#elif defined(VEC_U8_ABSTRACT)
+  /* abstract contents: the appended octets are arbitrary (over-approximation, sound for safety obligations) */
+  if (cnt > 0) __CPROVER_havoc_object(dst->data);
+  dst->size = dst->size + cnt;
+#else
   for (size_t k = 0; k < cnt; k++) { dst->data[dst->size] = first.v->data[first.i + k]; dst->size = dst->size + 1; }
+#endif
 }
 static inline void vec_u8__erase(vec_u8 *v, vec_u8_iter first, vec_u8_iter last)
 {
   __CPROVER_assert(first.v == v && last.v == v, "erase: iterators belong to this container");
   __CPROVER_assert(first.i <= last.i && last.i <= v->size, "erase: range lies inside the container");
   size_t cnt = last.i - first.i;
+#if defined(VEC_U8_NOCONTENT)
+#elif defined(VEC_U8_ABSTRACT)
+  if (cnt > 0) __CPROVER_havoc_object(v->data);
+#else
   for (size_t k = last.i; k < v->size; k++) v->data[k - cnt] = v->data[k];
+#endif
   v->size = v->size - cnt;
 }
 
